@@ -192,7 +192,58 @@ def check(ctx, tree, leaves0, dsl, cfg):  # noqa: C901, PLR0912, PLR0915
         ctx.violation('repr', keyf('repr'), case, f'{spec!r} vs {want_repr}')
 
 
+class FlakyRepr:
+    armed = False
+
+    def __repr__(self):
+        if FlakyRepr.armed:
+            raise RuntimeError('repr failed')
+        return 'FlakyRepr()'
+
+    def __eq__(self, other):
+        return isinstance(other, FlakyRepr)
+
+    def __hash__(self):
+        return 5
+
+
+def repr_after_failure(ctx):
+    """repr renders the documented notation also after a repr() call that raised: on the same treespec and
+    on new treespecs that re-use its address."""
+    from collections import defaultdict, deque  # noqa: PLC0415
+
+    from mc.universe import Leaf  # noqa: PLC0415
+
+    key = FlakyRepr()
+    for round_ in range(60):
+        ctx.count()
+        ctx.cls(('repr-after-failure', round_ % 3))
+        tree = [{key: Leaf(0)}, defaultdict(None, {key: Leaf(1)}), (un.CN([Leaf(2)], key),)][round_ % 3]
+        ns = 'ns' if round_ % 3 == 2 else ''
+        e1.universe()
+        s1 = optree.tree_structure(tree, namespace=ns)
+        good = repr(s1)
+        FlakyRepr.armed = True
+        r = outcome_of(lambda: repr(s1))
+        FlakyRepr.armed = False
+        if r != ('exc', 'RuntimeError'):
+            ctx.violation('repr-failure-not-propagated', f'{PROP}:repr-after-failure', {'round': round_}, repr(r))
+        if repr(s1) != good or str(s1) != good or 'FlakyRepr()' not in good:
+            ctx.violation('repr-after-failure', f'{PROP}:repr-after-failure', {'round': round_, 'which': 'same object'},
+                          f'after a failed repr(): {repr(s1)!r} vs {good!r}')
+        del s1
+        for i in range(12):
+            s = optree.tree_structure((Leaf(3), deque([Leaf(4)] * (i % 3))))
+            want = 'PyTreeSpec((*, deque([' + ', '.join(['*'] * (i % 3)) + '])))'
+            if repr(s) != want:
+                ctx.violation('repr-after-failure', f'{PROP}:repr-after-failure', {'round': round_, 'which': 'address reuse'},
+                              f'{repr(s)!r} vs {want!r}')
+        ctx.outcome('repr-after-failure')
+
+
 def run_shard(ctx):
+    if ctx.shard == 0:
+        repr_after_failure(ctx)
     preds = ['none', 'is_tuple', 'custom', 'leafbox']
     e1.drive(ctx, ctx.tier, lambda tree, leaves, dsl, cfg: check(ctx, tree, leaves, dsl, cfg),
              profile='tiny' if ctx.tier == 'quick' else 'full', cfgs=e1.configs(ctx.tier, predicates=preds))
